@@ -37,7 +37,15 @@ func runC03(env *Env, rc *RunCtx) {
 		rc.Rec.Skipped = "limits-could-bind"
 		return
 	}
-	q, class, _, err := env.PrepCase(c, Limits{Depth: c01Depth, Width: 65535, BatchPar: 5, BatchMax: 10})
+	batchN, batchPar := 2, 5
+	if rc.Mode == "batch" && rc.CaseTape.Bool(1, 2) {
+		// longer batches than the worker pool, and pools of different sizes: entries
+		// that the fault does not touch still get their own answer
+		batchN = []int{3, 6, 7, 8, 10}[rc.CaseTape.Choose(5)]
+		batchPar = []int{1, 2, 3, 5}[rc.CaseTape.Choose(4)]
+		rc.Count("probe_batch_longer_than_two", 1)
+	}
+	q, class, _, err := env.PrepCase(c, Limits{Depth: c01Depth, Width: 65535, BatchPar: batchPar, BatchMax: 10})
 	if err != nil {
 		env.T.Fatalf("harness: %v", err)
 	}
@@ -48,7 +56,11 @@ func runC03(env *Env, rc *RunCtx) {
 	batch := rc.Mode == "batch"
 	mkReq := func() []*Request {
 		if batch {
-			return []*Request{{Kind: "batch", Batch: []*ketoapi.RelationTuple{c.Query.API(), c.Query.API()}}}
+			var b []*ketoapi.RelationTuple
+			for i := 0; i < batchN; i++ {
+				b = append(b, c.Query.API())
+			}
+			return []*Request{{Kind: "batch", Batch: b}}
 		}
 		return []*Request{{Kind: "check", Tuple: q}}
 	}
@@ -60,9 +72,11 @@ func runC03(env *Env, rc *RunCtx) {
 		return
 	}
 	D := base.Outs[0].Allowed()
-	if batch && base.Outs[1].Allowed() != D {
-		rc.Rec.Skipped = "base-run-inconsistent"
-		return
+	for i := 1; batch && i < len(base.Outs); i++ {
+		if base.Outs[i].Allowed() != D || base.Outs[i].Err != "" {
+			rc.Rec.Skipped = "base-run-inconsistent"
+			return
+		}
 	}
 	N := base.Calls
 	if N > 500 {
